@@ -86,4 +86,9 @@ package broker
 //@   at removeExpiredMembers#1 before assert [C43.cleanup_expires_at_current_time] arg0 == gnow && has(c.groups, groupID) && arg_recv == mapval(c.groups, groupID)
 //@   at dropRebalanceLaggers#1 before assert [C43.cleanup_drops_laggers_at_current_time] arg0 == gnow && has(c.groups, groupID) && arg_recv == mapval(c.groups, groupID)
 //@   at startRebalance#1 before assert [C43.cleanup_rebalances_after_removal] removed || lostDuringRebalance
+//@   ghost gexp int = 0
+//@   ghost gdrop int = 0
+//@   at removeExpiredMembers#1 after set gexp = gexp + 1
+//@   at dropRebalanceLaggers#1 after set gdrop = gdrop + 1
+//@   at loopstep#1 assert [C43.cleanup_applies_both_rules_to_each_group] gexp == 1 && gdrop == 1
 //@   ensures [C43.cleanup_visits_every_group] forall g string :: has(c.groups, g) ==> seen(1, g)
